@@ -87,8 +87,13 @@ func genDenseCase(r *rand.Rand, idx int64) *checkCase {
 	for _, rn := range rels {
 		doc.Rels = append(doc.Rels, &RelDef{Name: rn, Types: []TypeRef{{NS: "User"}, {NS: "Group", Rel: "members"}}})
 	}
+	// relations with a plain Group type: operands `this.related.pa.traverse(g => g.related.members.includes(...))`
+	prels := []string{"pa", "pb"}[:r.IntN(3)]
+	for _, rn := range prels {
+		doc.Rels = append(doc.Rels, &RelDef{Name: rn, Types: []TypeRef{{NS: "Group"}}})
+	}
 	cfg := &Cfg{NS: []*NSDef{user, group, doc}}
-	o := genOpts{AllowAnd: true, AllowNot: idx%2 == 0, MaxExprDepth: 2}
+	o := genOpts{AllowAnd: true, AllowNot: idx%2 == 0, AllowTTU: len(prels) > 0, MaxExprDepth: 2}
 	nP := 1 + r.IntN(2)
 	for j := 0; j < nP; j++ {
 		pd := &RelDef{Name: permNames[j], Perm: true}
@@ -117,6 +122,9 @@ func genDenseCase(r *rand.Rand, idx int64) *checkCase {
 			ts = append(ts, tupSet("Doc", pickS(r, docs), pickS(r, rels), "Group", pickS(r, groups), "members"))
 		case 4:
 			ts = append(ts, tupID("Doc", pickS(r, docs), pickS(r, rels), pickS(r, users)))
+		}
+		if len(prels) > 0 && r.IntN(3) == 0 {
+			ts = append(ts, tupSet("Doc", pickS(r, docs), pickS(r, prels), "Group", pickS(r, groups), ""))
 		}
 	}
 	for _, d := range docs {
